@@ -124,6 +124,7 @@ def run(ck):
     layer_count_rule(ck, prog)
     agreement(ck, prog)
     remainder_sent(ck, prog)
+    foldable_rule(ck, prog)
     from . import width
     width.run(ck, prog, only=("FriProof", "FriProofLayer"), floor=3)   # the FRI proof of a legal schedule survives serialization
     ck.control("FriProver::build_layers does not clear the layers", "layers" not in clears(prog, bl))
@@ -453,3 +454,68 @@ def carried_state(ck, prog, bli, rs):
                          "(smaller) domain keeps the table computed for the previous one")
         else:
             ck.note(f"T: field `{fld}` survives reset() and is rebuilt conditionally; whether the condition identifies its contents is not decided")
+
+
+# ---- FOLDABLE: the parser's "layer can be folded" test looks at the layer's own domain --------------------------------------------------
+
+def foldable_rule(ck, prog, rule="X"):
+    """While parsing the layers of a FRI proof, a layer is refused when its domain is smaller than the folding factor. The value compared
+    with the folding factor must be the domain size of the layer being parsed — not that size already divided by the folding factor (seed
+    C15-M: the guard moved into FriProofLayer::parse and applied to the folded size: honest proofs whose remainder domain is smaller than
+    the folding factor — (256 coefficients, blowup 2, folding 4, remainder degree 0) — are refused)."""
+    fns = [f for f in prog.fns.values() if f.crate == "winter_fri" and f.blocks and f.nname.startswith("winter_fri::proof::")
+           and f.nname.split("::")[-1] in ("parse_layers", "parse")]
+    n = 0
+    for f in fns:
+        g = flow(f)
+        params = {i + 1: f.local_name(i + 1) for i in range(f.arg_count)}
+        ff = [l for l, nm in params.items() if nm == "folding_factor"]
+        if not ff:
+            continue
+        for b in range(len(f.blocks)):
+            t = f.term(b)
+            if t["k"] != "switch":
+                continue
+            c = trace_cond(f, t["d"])
+            if c.kind != "cmp" or c.op not in ("<", "<=", ">", ">="):
+                continue
+            for x_side, f_side in ((c.lhs, c.rhs), (c.rhs, c.lhs)):
+                fl = op_local(f_side, pure=True)
+                for _ in range(6):
+                    d = single_def(f, fl) if fl is not None and fl not in ff else None
+                    if d is None or d[1] == "T" or d[2]["rv"]["k"] != "use":
+                        break
+                    fl = op_local(d[2]["rv"]["a"], pure=True)
+                if fl not in ff:
+                    continue
+                # the other side: is it a fresh quotient by the folding factor?
+                xl = op_local(x_side, pure=True)
+                divided = False
+                for _ in range(8):
+                    if xl is not None and 1 <= xl <= f.arg_count:
+                        break      # the (mutable) parameter itself: the loop-carried size of the current layer
+                    d = single_def(f, xl) if xl is not None else None
+                    if d is None or d[1] == "T":
+                        break
+                    rv = d[2]["rv"]
+                    if rv["k"] == "bin" and rv["op"] == "Div":
+                        dl = op_local(rv["b"], pure=True)
+                        for _ in range(6):
+                            dd = single_def(f, dl) if dl is not None and dl not in ff else None
+                            if dd is None or dd[1] == "T" or dd[2]["rv"]["k"] != "use":
+                                break
+                            dl = op_local(dd[2]["rv"]["a"], pure=True)
+                        divided = dl in ff
+                        break
+                    if rv["k"] in ("use", "cast"):
+                        xl = op_local(rv["a"], pure=True)
+                        continue
+                    break
+                n += 1
+                ck.ob(rule, f"{f.nname.split('::')[-2]}::{f.nname.split('::')[-1]}:foldable-test-on-own-domain", not divided,
+                      f"{f.nname.split('::')[-1]}: the size compared with the folding factor is the domain of the layer being parsed, not that size "
+                      "already divided by the folding factor", loc=f.loc(b, T),
+                      detail=None if not divided else "the quotient domain_size / folding_factor is compared with the folding factor: the last layer of an honest "
+                                                      "proof whose remainder domain is smaller than the folding factor is refused")
+    if n == 0:
+        ck.note(f"{rule}: no comparison with the folding factor found in the FRI proof parsers; the foldability clause is not decided")
